@@ -180,8 +180,12 @@ def judge(run, cases, metas, tag):
         for r in res.records:
             tid = r[1] + c0
             seen.add(tid)
+            # a child that reads the wire it drives makes insertFeedback abort placeAndRoute half way (known finding): every other
+            # net of that drawing is left unrouted too, so all findings of such a design belong to that root cause
+            selfy = any(w_['driver'] and w_['driver'][0] == 'child' and any(rd[0] == 'child' and rd[1] == w_['driver'][1] for rd in w_['readers'])
+                        for w_ in part[r[1] - 1]['N']['wires'])
             for f in r[2]:
-                cls = metas[tid - 1]['class']
+                cls = 'self-feedback' if selfy else metas[tid - 1]['class']
                 if f[0] in ('pin-not-touched', 'wire-figure-not-connected', 'foreign-pin-touched', 'routed-through-foreign-pin',
                             'drawn-figure-in-pieces', 'pin-off-the-drawn-figure'):
                     w = part[r[1] - 1]['N']['wires'][f[1] - 1]
